@@ -78,7 +78,7 @@ def api_inners(p):
 
     out = []
     for f in inners:
-        node = common.inline_lexical_helpers(f.node, depth=2)
+        node = common.inline_lexical_helpers(f.node, depth=2, resolver=common.project_resolver(p, f.module, "einx._src.frontend"))
         g = Func(qualname=f.qualname, module=f.module, node=node, cls=None, parent=f.parent)
         p.func_of_node[id(node)] = g
         out.append(g)
@@ -198,8 +198,32 @@ def r5(p, rep):
                 rep.ok("C03.R5", key, site, "dispatch fall-through; exhaustiveness checked by C03.R1", nontrivial=False)
             elif _unreachable_after_raise(n):
                 rep.ok("C03.R5", key, site, "statement directly follows an unconditional raise (dead code)", nontrivial=False)
+            elif nm == "AttributeError" and f.name in ("__getattr__", "__getattribute__") and _raise_ctx(n) == "top":
+                rep.ok("C03.R5", key, site, "attribute protocol: __getattr__ answers an unknown name with AttributeError (what hasattr / getattr / `from .. import` expect); not a check of a call's arguments", nontrivial=False)
+            elif nm == "NotImplementedError" and _abstract_hook(p, f, n):
+                rep.ok("C03.R5", key, site, "abstract hook: the class is never instantiated and every concrete subclass overrides the method, so the raise cannot run", nontrivial=False)
             else:
                 rep.violation("C03.R5", key, site, f"raises {nm} ({kind}), which is not a documented error class for ill-formed calls (einx.errors.*, ValueError, TypeError)")
+
+
+def _abstract_hook(p, f, n):
+    """the raise is the whole body of a method of a class that is never constructed, and every leaf subclass
+    resolves the method to an override"""
+    c = f.cls
+    if c is None or not isinstance(f.node, ast.FunctionDef):
+        return False
+    body = [st for st in f.node.body if not (isinstance(st, ast.Expr) and isinstance(st.value, ast.Constant))]
+    if body != [n]:
+        return False
+    subs = p.subclasses(c, strict=True)
+    leaves = [s_ for s_ in subs if not p.subclasses(s_, strict=True)]
+    if not leaves or any(p.lookup_method(s_, f.name) is f for s_ in leaves):
+        return False
+    for m in p.modules.values():
+        for call in ast.walk(m.tree):
+            if isinstance(call, ast.Call) and resolve_callee(p, call, m) == ("class", c):
+                return False
+    return True
 
 
 def _raise_ctx(n):
@@ -397,10 +421,12 @@ def r9(p, rep):
     from sa.cfg import CFG
 
     f = p.func("_parse_op", "adapter.einx_from_namedtensor")
-    cfg = CFG(f.node)
+    # checks that were extracted into straight-line helpers (`el_op = _get_el_op(..)`) are read in place
+    fnode = common.inline_lexical_helpers(f.node, depth=2)
+    cfg = CFG(fnode)
     # role: the names handed to stage1.Op([Args(<in>), Args(<out>)])
     roles = None
-    for n in walk_no_nested(f.node):
+    for n in walk_no_nested(fnode):
         if isinstance(n, ast.Call) and norm(n.func).endswith("Op") and n.args and isinstance(n.args[0], ast.List) and len(n.args[0].elts) == 2:
             a, b = n.args[0].elts
             if all(isinstance(x, ast.Call) and norm(x.func).endswith("Args") and x.args and isinstance(x.args[0], ast.Name) for x in (a, b)):
@@ -416,7 +442,7 @@ def r9(p, rep):
         return any(isinstance(x, ast.Subscript) and isinstance(x.slice, ast.Constant) and x.slice.value == 0 and isinstance(x.value, ast.Attribute) and x.value.attr == "children" for x in ast.walk(e))
 
     guards = []
-    for n in walk_no_nested(f.node):
+    for n in walk_no_nested(fnode):
         if isinstance(n, ast.If) and block_always_raises(n.body) and cfg.node_for(n) is not None:
             t = cfg.expand(n.test, cfg.node_for(n))  # counts bound to locals first are written out
             if isinstance(t, ast.Compare) and len(t.ops) == 1 and isinstance(t.ops[0], ast.NotEq) and is_len(t.left) and is_len(t.comparators[0]) and input_side(t.left) and input_side(t.comparators[0]):
@@ -425,7 +451,7 @@ def r9(p, rep):
         rep.violation("C03.R9", f"{f.qualname}:input-arity-guard", f.loc, "no guard compares the number of given input expressions with the number the operation expects")
         return
     rep.ok("C03.R9", f"{f.qualname}:input-arity-guard", f"{f.module.rel}:{guards[0].lineno}", f"`{norm(guards[0].test)[:80]}` raises a documented error")
-    derivs = [n for n in walk_no_nested(f.node) if isinstance(n, ast.Assign) and any(isinstance(t, ast.Name) and t.id == out_name for t in n.targets) and any(isinstance(x, ast.Name) and x.id == in_name for x in ast.walk(n.value))]
+    derivs = [n for n in walk_no_nested(fnode) if isinstance(n, ast.Assign) and any(isinstance(t, ast.Name) and t.id == out_name for t in n.targets) and any(isinstance(x, ast.Name) and x.id == in_name for x in ast.walk(n.value))]
     if not derivs:
         raise AnalysisError(f"unrecognised idiom: `{out_name}` is never derived from `{in_name}` in _parse_op")
     late = []
